@@ -662,7 +662,18 @@ class Ev:
         if e.get("res") == "local":
             if e["id"] not in env:
                 raise Unsupported("unbound local " + e["name"])
-            return env[e["id"]]
+            v_ = env[e["id"]]
+            if isinstance(v_, Alt) and self.path:
+                # a value that depends on a test already decided on the current path is the alternative of that decision
+                live = []
+                for gs_, x_ in flat_alts(v_):
+                    ds_ = [self.decided(g_) for g_ in gs_]
+                    if False in ds_:
+                        continue
+                    live.append((all(d_ is True for d_ in ds_), x_))
+                if len(live) == 1 and live[0][0]:
+                    return live[0][1]
+            return v_
         d = e.get("def", "")
         if d.endswith("consts::PI"):
             return Poly.atom("PI")
@@ -1430,6 +1441,13 @@ class Ev:
                 if isinstance(tag, tuple) and tag[:1] == ("carried",) and tag[1] == vkey(ph) and not tag[3] and len(tag[4]) == 1 and \
                         not key_mentions(tag[2], name) and not any(key_mentions(tag[2], vkey(o)) for o in others):
                     count = poly_from_key(ksrc[3]) - poly_from_key(ksrc[2])
+                    vobj = getattr(self, "_carried_vals", {}).get(vid)
+                    if isinstance(vobj, Alt) and vkey(vobj) == tag[2] and all(not key_mentions(g_, vkey(ph)) for gs_, _ in flat_alts(vobj) for g_ in gs_):
+                        # the step branches on a test that does not change from round to round (`if backward {..} else {..}`): the same as branching
+                        # once and repeating the chosen step
+                        env[vid] = Alt([(gs_[0] if len(gs_) == 1 else ("all", gs_), Sym("repeat", count.key(), vkey(init), key_subst(vkey(x_), vkey(ph), vkey(Sym("acc")))))
+                                        for gs_, x_ in flat_alts(vobj)])
+                        continue
                     step = key_subst(tag[2], vkey(ph), vkey(Sym("acc")))
                     env[vid] = Sym("repeat", count.key(), vkey(init), step)
                 elif isinstance(v, Sym):
@@ -1569,6 +1587,8 @@ class Ev:
         if not (self.loops and self.outer_locals and t.get("k") == "path" and t.get("res") == "local" and t["id"] in self.outer_locals[-1]):
             return val
         prev = env.get(t["id"])
+        self._carried_vals = getattr(self, "_carried_vals", {})
+        self._carried_vals[t["id"]] = val          # the update as a value (the tag below keeps only its key)
         tag = ("carried", vkey(prev), vkey(val), tuple(self.guards), tuple(self.loops))
         return Poly.atom(tag) if isinstance(val, Poly) and val.order == 0 else Sym(*tag)
 
